@@ -339,6 +339,7 @@ def vectorized_ltf_plan(**args):
     r_map = fs / L_grid
     K_map = np.round((N - L_grid) / (xov * L_grid) + 1).astype(np.int64)
     L_map = L_grid.astype(np.int64)
+    K_map = np.minimum(K_map, N - L_map + 1)  # at most N-L+1 distinct segment positions
 
     # --- Phase 2: Walk the map ---
     f_out, r_out, L_out, K_out = [], [], [], []
